@@ -66,3 +66,16 @@ ASSIGNOP(h_div_assign_ww, 3, a /= b, VASSUME(!vfr_slot_is_zero(1)), KW, KW)
 ASSIGNOP(h_div_assign_wm, 3, a /= b, VASSUME(!vfr_slot_is_zero(1)), KW, KM)
 ASSIGNOP(h_div_assign_mw, 3, a /= b, VASSUME(!vfr_slot_is_zero(1)), KM, KW)
 ASSIGNOP(h_div_assign_mm, 3, a /= b, VASSUME(!vfr_slot_is_zero(1)), KM, KM)
+
+// multi-step: stale GMP part after assigning a word value (run with opaque GMP arithmetic)
+extern "C" void h_copy_assign_then_use() {
+    // the target once held a GMP value, gets a word value, and is then used in an operation that leaves the word path
+    FR a, b, c; vfr_make(&a, (uint8_t)2); vfr_make(&b, (uint8_t)1); vfr_make(&c, (uint8_t)2);
+    vfr_snapshot(1, &b); vfr_snapshot(2, &c);
+    a = b;
+    vfr_snapshot(0, &a);
+    VASSERT(vfr_same_as(1, &a), "assignment took b's value");
+    FR r = a * c;
+    VASSERT(vfr_is_result(&r, 2, 0, 2), "the product uses the assigned value, not the target's former GMP value");
+    VWITNESS("assign-then-use");
+}
